@@ -25,3 +25,9 @@ impl RLN {
         self.n
     }
 }
+
+/// wrong: `write` may accept only a prefix and the count is dropped (C12 R12-4 must see this call)
+pub fn short_write<W: Write>(mut out: W, msg: &[u8]) -> Result<()> {
+    out.write(msg).map_err(|e| e.to_string())?;
+    Ok(())
+}
